@@ -158,3 +158,11 @@ CLAIMS["C18"] = (
     "catches per phase. Decides these flows for all sources; does not decide termination of the compiler's fixpoint loops nor arbitrary "
     "IndexError/AttributeError. Found and repaired F-09, F-11, F-16, F-18, F-19, F-20.",
     "Trusted: the frozen triage tables in rules/c18.py (one reason per entry; a new raise/assert/fall-off/unassigned local is reported, never silently added).")
+CLAIMS["C20"] = (
+    "class-level state inventory vs per-run reset + set-typing dataflow classifying every order-revealing consumption + ambient-input / debug-store who-reads rules",
+    "Static, necessary conditions only: equivalence of two compilations is not decided. Decided - the ways a compilation could depend on history, addresses or "
+    "hash order: every class-level mutable container is reset per run or triaged (a new one is reported); every order-revealing consumption of a "
+    "set-typed value either feeds numbering / the loop element only, or - if it picks one element or feeds an action sink through an invariant receiver - "
+    "is triaged with a re-checked reason; multi-kind lookups use ordered containers; no time/random/environment; id() only feeds the debug store and one "
+    "label name; the debug store only guards imbue calls, diagnostics and a skip label; no mutated mutable defaults.",
+    "Trusted: the triage tables in rules/c20.py (reasons stated; the greedy-max reason is re-checked each run); the name-based (over-approximate) set typing.")
